@@ -421,6 +421,18 @@ mod deltae {
             }
             if std::fs::read(p("source")).unwrap_or_default() != source { v.push("copia sync modified the source".into()); }
         }
+        // single-file sync over the ssh stand-in (push and pull): whole-file streaming, same round-trip obligation
+        if let Ok(shimdir) = std::env::var("VERIF_SHIMDIR") {
+            let path_env = format!("{shimdir}:{}", std::env::var("PATH").unwrap_or_default());
+            for (label, from, to, out) in [("push", p("source").to_str().unwrap().to_string(), format!("hh:{}", p("dst_push").to_str().unwrap()), p("dst_push")),
+                                           ("pull", format!("hh:{}", p("source").to_str().unwrap()), p("dst_pull").to_str().unwrap().to_string(), p("dst_pull"))] {
+                let _ = std::fs::remove_file(&out);
+                match run_ok(std::process::Command::new(copia).args(["sync", &from, &to, "-b", "4096"]).env("PATH", &path_env)) {
+                    Err(e) => v.push(format!("copia sync ({label} via stand-in) failed: {e}")),
+                    Ok(()) => if std::fs::read(&out).unwrap_or_default() != source { v.push(format!("copia sync ({label} via stand-in): destination != source")); },
+                }
+            }
+        }
         v
     }
 }
